@@ -644,6 +644,13 @@ class Messenger(Connection):
         while self.__rx_buf:
             if self._in_conn:
                 msgcls = messages.MessageHead
+                msg_id = self.__rx_buf[0]
+                if msgcls(msg_id=msg_id).guess_payload_class(b'') is msgcls().default_payload_class(b''):
+                    # Its length is unknown so the rest of the stream is too
+                    self._logger.error('Unknown message type 0x%02x', msg_id)
+                    self.__rx_buf = b''
+                    self.close()
+                    return
             else:
                 msgcls = contact.Head
 
